@@ -28,19 +28,24 @@ OBLIGATIONS = [
     "Grog.C02.unchanged_not_executed",
     "Grog.C02.noop_rebuild_partial",
     "Grog.C02.restore_total",
+    "Grog.C02.dir_restore_total",
     "Grog.C02.reexec_subset",
+    "Grog.C02.reexec_subset_history",
     "Grog.C02.early_cutoff",
     "Grog.C02.key_location_free",
     "Grog.C02.globout_witness",
+    "Grog.Compose.noop_rebuildK",
+    "Grog.Compose.noop_rebuild_real",
 ]
+PROP_MODULES = ["GrogModel.Props.C02", "GrogModel.Props.ComposeBuild"]
 ASSUMPTIONS = [
     "cache key injective on key-states (C09); restore exact and total from every prior destination state (C06)",
     "WF: declared output paths pairwise distinct, resolved inputs and check files disjoint from declared outputs",
     "parent-directory deletion of cached file outputs (F-mkdir) and lost blobs of directory outputs (F-errchan) are not generated",
 ]
 
-FAMILIES_QUICK = [("edits", 10, {}), ("tamper", 10, {}), ("cutoff", 6, {}), ("alias", 5, {}), ("nocache", 4, {}),
-                  ("edits", 4, {"minimal": True}), ("wipe", 5, {}), ("wipe", 4, {"minimal": True})]
+FAMILIES_QUICK = [("edits", 7, {}), ("tamper", 6, {}), ("dirs", 7, {}), ("cutoff", 4, {}), ("alias", 3, {}), ("nocache", 3, {}),
+                  ("taintedit", 5, {}), ("relocate", 5, {}), ("edits", 3, {"minimal": True}), ("wipe", 3, {}), ("wipe", 3, {"minimal": True})]
 FAMILIES_THOROUGH = [(f, n * 15, kw) for f, n, kw in FAMILIES_QUICK]
 
 SIG_GLOBOUT = "noop-rebuild-executes:input-glob-matches-dependency-output"
@@ -63,7 +68,8 @@ def run(ctx):
     ctx.coverage["rule"] = ("layered DAGs of 2-6 targets; every build selects //...; histories of edits / tampering with output paths "
                             "(delete, modify, delete directory output) / fingerprint-only edits, each followed by a build, the last build "
                             "repeated; families: " + ", ".join("%s%s x%d" % (f, "(minimal)" if kw.get("minimal") else "", n) for f, n, kw in fams) +
-                            " + glob-matches-dependency-output; non-trivial = distinct history with >=2 builds, one executing and one with a hit")
+                            " + glob-matches-dependency-output; taintedit = taint + edit of the tainted target + no-op rebuild, relocate = the workspace moved to "
+                            "another absolute path with its cache directory renamed along, dirs = directory outputs with a symlink tampered in place; non-trivial = distinct history with >=2 builds, one executing and one with a hit")
     recs = H.run_both(ctx, hists, "c02")
     if recs is None:
         return
